@@ -134,7 +134,9 @@ def run(R, tier, seed, driver_ok):
                     est = MMC(init=init, max_proj=max_proj, diagonal=diagonal, max_iter=max_iter, tol=tol, diagonal_c=dc, random_state=sd, verbose=True)
                     est.fit(pairs, yy)
         except ValueError as e:
-            outcome = 'ValueError'
+            # (the documented failure clause is the plain ValueError about a NaN objective; subclasses such as NonPSDError /
+            #  LinAlgError are other failures)
+            outcome = 'ValueError' if type(e) is ValueError and 'NaN' in str(e) else type(e).__name__
         except Exception as e:
             outcome = type(e).__name__
         finally:
